@@ -6,6 +6,7 @@ import copy
 import inspect
 import io
 import itertools
+import multiprocessing
 import textwrap
 
 import z3
@@ -34,22 +35,75 @@ def inplace_sites(fn):
     return n
 
 
-def frame_run(chk, label, mod_name, fn_name, make_call, base=(), expect_writes=True, opts=None):
-    """explore fn on all paths and all alias cases of copy=False conversions; no write may hit a non-fresh buffer"""
-    chk.function(mod_name, fn_name)
-    o = {'alias_forks': True}
-    o.update(opts or {})
-    paths = chk.explore(make_call, base=list(base) + kit.CONST_AXIOMS, opts=o, catch=CATCH, max_paths=600)
+_TASK = {}
+
+
+def _variant_worker(vname):
+    """runs in a forked child: explore one operand-shape variant, return plain data only"""
+    t = _TASK
+    try:
+        with kit.dims_policy(t['variants'][vname]):
+            paths, st = core.explore(t['make_call'], t['base'], t['opts'], CATCH, 600)
+    except core.Unsupported as e:
+        return vname, 'unsupported', str(e)[:160]
+    except core.PathLimit as e:
+        return vname, 'pathlimit', str(e)[:160]
+    return vname, 'ok', _summarise(paths), st
+
+
+def _summarise(paths):
     bad, writes, alias_cases = [], 0, 0
     for p in paths:
         writes += len(p.writes)
         alias_cases += len([e for e in p.log if e[0] == 'alias'])
         for w in p.writes:
             if w[1] != 'fresh':
-                bad.append({'write': w[0], 'target_origin': w[1], 'target': w[3], 'aliases': [e[1:] for e in p.log if e[0] == 'alias']})
-    ob = chk.decided(f'{mod_name}:{fn_name}/frame: no write to an argument or to module state [{label}]', not bad, detail=str(bad[:2]),
-                     meta={'paths': len(paths), 'writes_executed': writes, 'alias_cases': alias_cases, 'function': f'{mod_name}:{fn_name}'}, model={'violations': bad[:2]})
-    return len(paths), writes, alias_cases
+                bad.append({'write': str(w[0]), 'target_origin': str(w[1]), 'target': str(w[3]), 'aliases': [str(e[1:]) for e in p.log if e[0] == 'alias']})
+    return {'paths': len(paths), 'writes': writes, 'alias_cases': alias_cases, 'bad': bad[:2], 'n_bad': len(bad)}
+
+
+def frame_run(chk, label, mod_name, fn_name, make_call, base=(), expect_writes=True, opts=None, shapes=True):
+    """explore fn on all paths and all alias cases of copy=False conversions; no write may hit a non-fresh buffer.
+    With shapes=True the run is repeated for operand-shape variants (all 1-d; each operand scalar among 1-d ones; each operand with
+    a dimension of its own): code may choose between in-place and allocating operations by looking at the dims of its operands.
+    The variants are independent and run in forked worker processes (only plain summaries come back)."""
+    chk.function(mod_name, fn_name)
+    o = {'alias_forks': True}
+    o.update(opts or {})
+    del kit.ARG_LOG[:]
+    totals = [0, 0, 0]
+    full_base = list(base) + kit.CONST_AXIOMS
+
+    def register(lbl, sm):
+        chk.decided(f'{mod_name}:{fn_name}/frame: no write to an argument or to module state [{lbl}]', not sm['n_bad'], detail=str(sm['bad']),
+                    meta={'paths': sm['paths'], 'writes_executed': sm['writes'], 'alias_cases': sm['alias_cases'], 'function': f'{mod_name}:{fn_name}'},
+                    model={'violations': sm['bad']})
+        totals[0] += sm['paths']
+        totals[1] += sm['writes']
+        totals[2] += sm['alias_cases']
+    paths = chk.explore(make_call, base=full_base, opts=o, catch=CATCH, max_paths=600)
+    register(label, _summarise(paths))
+    names = list(kit.ARG_LOG)
+    if shapes and names:
+        variants = {'all 1-d': lambda n: ('row',)}
+        if len(names) > 1:
+            for a in names:
+                variants[f'{a} scalar, others 1-d'] = lambda n, a=a: () if n == a else ('row',)
+                variants[f'{a} along its own dim'] = lambda n, a=a: ('own',) if n == a else ('row',)
+        _TASK.clear()
+        _TASK.update(variants=variants, make_call=make_call, base=full_base, opts=o)
+        with multiprocessing.get_context('fork').Pool(min(12, len(variants))) as pool:
+            results = pool.map(_variant_worker, list(variants))
+        for res in results:
+            vname = res[0]
+            if res[1] != 'ok':      # this operand shape is outside the model for this function: variant not decided
+                chk.extra.setdefault('shape_variants_outside_the_model', []).append(f'{mod_name}:{fn_name} [{vname}]: {res[2]}')
+                continue
+            register(f'{label}; shape: {vname}', res[2])
+            chk.paths += res[2]['paths']
+            chk.path_stats['solver_calls'] += res[3]['solver_calls']
+            chk.path_stats['solver_s'] += res[3]['solver_s']
+    return tuple(totals)
 
 
 def run(chk):
@@ -80,14 +134,16 @@ def frames_tof(chk):
             tag = ','.join(f'{a}:{dts[a]}' for a in names)
             a0 = {a: arg(a, d, dtype=dts[a]) for a, d in spec['args'].items()}
             n, w, al = frame_run(chk, tag, 'conversion.tof', kname,
-                                 lambda: getattr(mod, kname)(**{a: arg(a, d, dtype=dts[a]) for a, d in spec['args'].items()}), base=K.requires(a0))
+                                 lambda: getattr(mod, kname)(**{a: arg(a, d, dtype=dts[a]) for a, d in spec['args'].items()}), base=K.requires(a0),
+                                 shapes=len(set(combo)) == 1)
             total_paths += n
     for kname, ename in (('energy_transfer_direct_from_tof', 'incident_energy'), ('energy_transfer_indirect_from_tof', 'final_energy')):
         dims = {'tof': 'time', 'L1': 'length', 'L2': 'length', ename: 'energy'}
         for combo in itertools.product((F64, F32), repeat=4):
             dts = dict(zip(dims, combo))
             tag = ','.join(f'{a}:{dts[a]}' for a in dims)
-            frame_run(chk, tag, 'conversion.tof', kname, lambda: getattr(mod, kname)(**{a: arg(a, dims[a], dtype=dts[a]) for a in dims}))
+            frame_run(chk, tag, 'conversion.tof', kname, lambda: getattr(mod, kname)(**{a: arg(a, dims[a], dtype=dts[a]) for a in dims}),
+                      shapes=len(set(combo)) == 1)
     ul = symbolic_unit('k_b', NAMED['m'])
     frame_run(chk, 'vectors', 'conversion.tof', 'Q_elements_from_wavelength',
               lambda: mod.Q_elements_from_wavelength(wavelength=arg('lam', 'length'), incident_beam=arg('b1', 'length', dtype=VEC, unit=ul), scattered_beam=arg('b2', 'length', dtype=VEC, unit=ul)))
@@ -411,19 +467,35 @@ def replay(rec):
             if not sc.identical(before[k], kw[k], equal_nan=True):
                 return f'argument {k} modified: {before[k].values} -> {kw[k].values}'
         return None
-    # unit/dtype choices that make internal conversions no-ops
-    for wl_unit in ('angstrom', 'm', 's*m**0.5') if False else ('angstrom', 'm'):
+    # unit/dtype choices that make internal conversions no-ops, in every operand-shape variant of the contract run
+    def shaped(v, dims):
+        if not dims:
+            return v
+        n = 3
+        if v.dtype == sc.DType.vector3:
+            return sc.vectors(dims=list(dims), values=np.array([v.value * (1 + 0.01 * i) for i in range(n)]), unit=v.unit)
+        return sc.array(dims=list(dims), values=np.array([v.value * (1 + 0.01 * i) for i in range(n)], dtype=v.values.dtype), unit=v.unit)
+    names = ('incident_beam', 'scattered_beam', 'wavelength', 'gravity')
+    arr = ('scattered_beam', 'wavelength')     # gravity and the incident beam stay scalars, as the API documents them
+    shape_variants = [{}] + [{n: ('row',) for n in arr}]
+    for a in arr:
+        shape_variants.append({n: (() if n == a else ('row',)) for n in arr})
+        shape_variants.append({n: (('own',) if n == a else ('row',)) for n in arr})
+    for wl_unit in ('angstrom', 'm'):
         for wdt in ('float64', 'float32'):
             kw = dict(incident_beam=sc.vector([0.0, 0.01, 10.0], unit='m'), scattered_beam=sc.vector([0.3, 0.5, 3.0], unit='m'),
                       wavelength=sc.scalar(5.0, unit=wl_unit, dtype=wdt) if wl_unit == 'angstrom' else sc.scalar(5e-10, unit='m', dtype=wdt),
                       gravity=sc.vector([0.0, -9.8, 0.0], unit='m/s^2'))
-            for f in (bl.scattering_angles_with_gravity, bl._scattering_angles_with_gravity_generic, bl._scattering_angles_with_gravity_orthogonal_coords):
-                kw2 = dict(kw)
-                if f is bl._scattering_angles_with_gravity_orthogonal_coords:
-                    kw2['incident_beam'] = sc.vector([0.0, 0.0, 10.0], unit='m')
-                p = snap_call(f, kw2)
-                if p:
-                    return {'reproduced': True, 'function': f.__name__, 'problem': p}
+            for f in (bl.scattering_angles_with_gravity, bl.scattering_angle_in_yz_plane, bl._scattering_angles_with_gravity_generic,
+                      bl._scattering_angles_with_gravity_orthogonal_coords):
+                for sv in shape_variants:
+                    kw2 = dict(kw)
+                    if f in (bl._scattering_angles_with_gravity_orthogonal_coords, bl.scattering_angle_in_yz_plane):
+                        kw2['incident_beam'] = sc.vector([0.0, 0.0, 10.0], unit='m')
+                    kw2 = {k: shaped(v, sv.get(k, ())) for k, v in kw2.items()}
+                    p = snap_call(f, kw2)
+                    if p and not p.startswith('raised'):
+                        return {'reproduced': True, 'function': f.__name__, 'operand_dims': {k: list(v.dims) for k, v in kw2.items()}, 'problem': p}
     p = snap_call(bl.two_theta, dict(incident_beam=sc.vector([0.0, 0.0, 1.0], unit='m'), scattered_beam=sc.vector([0.0, 1.0, 1.0], unit='m')))
     if p:
         return {'reproduced': True, 'function': 'two_theta', 'problem': p}
